@@ -14,6 +14,8 @@ def worklist_program(rng, pid, dev, nops, unit=Fraction(1), maxunits=16, wlmax=N
     fl.update(flags or {})
     hdr = gen.header(pid, dev, unit, wlmax, lws, autosplit=autosplit, diti=diti, flags=fl)
     sess = gen.Session(hdr)
+    if sess.broken:
+        return sess.prog
     big = max(1, big_factor * wlmax if autosplit else wlmax)
     w = weights or {"transfer": 5, "distribute": 2, "aspirate": 1, "dispense": 1, "add": 1 if direct else 0, "remove": 1 if direct else 0}
     kinds = [k for k, n in w.items() for _ in range(n)]
@@ -55,5 +57,5 @@ def worklist_program(rng, pid, dev, nops, unit=Fraction(1), maxunits=16, wlmax=N
             if ev["out"] != "ok" and fault_last:
                 break
     finally:
-        sess.tw.close()
+        sess.close()
     return sess.prog
